@@ -12,9 +12,7 @@ Ltac Zify.zify_post_hook ::= Z.to_euclidean_division_equations.
 Lemma gen_write_long_plan_eq value mtu :
   gen_write_long_plan value mtu = (nb_chunks (length value) (mtu - 5), mtu - 5, 0).
 Proof.
-  unfold gen_write_long_plan, nb_chunks. py_unfold.
-  repeat match goal with |- context [if ?c then _ else _] => destruct c eqn:? end;
-    repeat (f_equal; try lia).
+  unfold gen_write_long_plan, nb_chunks. py_arith.
 Qed.
 
 (** 6 <= ATT_MTU < 65536 (a chunk holds at least one byte; the MTU is a 16-bit field) and a
@@ -29,11 +27,11 @@ Qed.
 
 Lemma gen_write_long_chunk_eq value offset cs echoed :
   gen_write_long_chunk value offset cs echoed = slice offset (offset + cs) value.
-Proof. unfold gen_write_long_chunk. rewrite py_slice_slice. f_equal; lia. Qed.
+Proof. unfold gen_write_long_chunk. py_arith. Qed.
 
 Lemma gen_write_long_next_offset_eq value offset cs echoed :
   gen_write_long_next_offset value offset cs echoed = offset + length echoed.
-Proof. unfold gen_write_long_next_offset. py_unfold. lia. Qed.
+Proof. unfold gen_write_long_next_offset. py_arith. Qed.
 
 (** The model's Prepare Write loop and [write_long_nolock] over the generated arithmetic:
     only the message exchange (xfer / wait / error mapping) is hand-written. *)
